@@ -31,6 +31,7 @@ CVECS = {
     'ivec3': numpy.array([1, -2, 3]), 'perm2': numpy.array([1, 0]),
     # multi-axis index blocks (Inflate/Take with index.ndim > 1); idx223 has distinct entries in range(12), dup223 repeats some, idx22 is 2-d
     'idx223': numpy.array([[[5, 0, 7], [2, 9, 4]], [[11, 6, 1], [8, 3, 10]]]), 'dup223': numpy.array([[[5, 0, 7], [2, 5, 4]], [[1, 6, 1], [8, 3, 0]]]),
+    'blk22': numpy.array([[0, 1], [1, 0]]), 'blk22b': numpy.array([[1, 1], [0, 0]]), 'blk32': numpy.array([[0, 2], [1, 1], [2, 0]]),
     'idx232': numpy.array([[[5, 0], [7, 2], [9, 4]], [[11, 6], [1, 8], [3, 10]]]), 'idx22': numpy.array([[3, 0], [1, 2]]), 'dup22': numpy.array([[1, 0], [1, 2]]),
 }
 
@@ -99,7 +100,7 @@ OPS = {
     'guard': lambda a: ev.Guard(a),
     'legendre': lambda a, d: ev.Legendre(a, d),
     'normdim': lambda a, n: ev.NormDim(ev.appendaxes(C(n), a.shape) if a.ndim else C(n), a) if a.dtype == int and -n <= a._intbounds[0] and a._intbounds[1] < n else _ill(),
-    'inrange': lambda a, n: ev.InRange(a, C(n)),
+    'inrange': lambda a, n: ev.InRange(a, C(n)) if not (isinstance(a, ev.Constant) and a.value.size and (a.value.min() < 0 or a.value.max() >= n)) else _ill(),     # an out-of-range constant is an ill-typed program
     # binary
     'add': lambda a, b: ev.add(a, b), 'sub': lambda a, b: ev.subtract(a, b), 'mul': lambda a, b: ev.multiply(a, b),
     'div': lambda a, b: ev.divide(a, b), 'pow': lambda a, b: ev.power(a, b),
@@ -395,6 +396,22 @@ def double_diagonals():
                 yield ('takediag', ('takediag', a, i, j), k, l)
         yield ('sum', ('takediag', ('takediag', a, 0, 1), 0, 1), 0)
 
+def block_diagonals():
+    '''block (multi-axis) inflations and gathers of operands that carry a diagonal, combined with other diagonal terms (structure descriptors _diagonals / _inflations)'''
+    u, v, W, x, M = ('arg', 'u'), ('arg', 'v'), ('arg', 'W'), ('arg', 'x'), ('arg', 'M')
+    du, dv = ('diagonalize', u, 0, 1), ('diagonalize', v, 0, 1)
+    for blk in ('blk22', 'blk22b'):
+        for ins in (0, 1, 2):
+            a = ('insertaxis', du, ins, 2)
+            for axis in (0, 1):
+                f = ('inflate', a, ('cvec', blk), 2, axis)
+                for other in (dv, W, ('transpose', dv, 'r'), ('diagonalize', ('mul', u, v), 0, 1)):
+                    yield ('add', f, other); yield ('add', other, ('transpose', f, 'r'))      # products of indexed diagonals are the recorded non-termination finding: not repeated here
+                yield ('takediag', f, 0, 1); yield ('sum', f, 0)
+        yield ('add', ('taken', du, ('cvec', blk), 0), ('insertaxis', dv, 0, 2))
+    dx = ('diagonalize', x, 0, 1)
+    yield ('add', ('inflate', ('insertaxis', dx, 2, 2), ('cvec', 'blk32'), 3, 1), ('diagonalize', ('arg', 'y'), 0, 1))
+
 def structured(level=2):
     '''targeted family: structural constructor pairs over equal-length leaves, structural constructors over binary nodes, multi-factor products'''
     for a in CUBE_LEAVES:
@@ -403,6 +420,7 @@ def structured(level=2):
             if level >= 2:
                 for g in structural_forms(f): yield g
     yield from double_diagonals()
+    yield from block_diagonals()
     for b in list(cube_binary()) + list(multi_factor()):
         yield b
         for g in structural_forms(b):
